@@ -171,6 +171,11 @@ Proof.
   destruct H as (Hv & Hne & Fi & Fo & Hl & Li & Lo & Fw & Hw).
   unfold wf_tx. cbn [set_wit tx_version tx_vin tx_vout tx_wit tx_lock]. repeat (split; [assumption|]). split; [constructor|left; reflexivity].
 Qed.
+Lemma wf_norm_wit_nil t : wf_tx MAX_SIZE t -> wf_tx MAX_SIZE (set_wit t []).
+Proof.
+  intros H. destruct H as (Hv & Hne & Fi & Fo & Hl & Li & Lo & Fw & Hw).
+  unfold wf_tx. cbn [set_wit tx_version tx_vin tx_vout tx_wit tx_lock]. repeat (split; [assumption|]). split; [constructor|left; reflexivity].
+Qed.
 Lemma wire_norm_wit t : wire_tx (norm_wit t) = wire_tx t.
 Proof.
   unfold norm_wit. destruct (has_witness t) eqn:H; [reflexivity|].
